@@ -117,6 +117,8 @@ def layers(prop, tier):
                     'complete string universes STR({a,b},l) under q-gram tokenizers (q, padding, '
                     'set/bag) and STR({a,b,c},3) with delimiter / alphabetic / alphanumeric '
                     'tokenizers', min_nontrivial=100, chunksize=4))
+    if prop != 'C01':
+        return Ls
     # (f) arithmetic loss model with replay on the join
     NA = 64 if quick else 128
     jobs = []
